@@ -161,7 +161,10 @@ pub fn check(c: &Case, mode: Mode) -> Outcome {
 /// Put the width into the window where the two paths differ.
 fn focus_width(text: &str, spec: &mut OptSpec, wpick: u16, focus: bool) {
     if focus {
-        let lo = display_width(text);
+        // (generators must not die when the library does: a panic of
+        // display_width on this text is for the check to count, not for the
+        // strategy to propagate)
+        let lo = crate::engine::no_panic(|| display_width(text)).unwrap_or(text.len());
         let hi = text.len() + 2;
         let span = hi.saturating_sub(lo) + 1;
         spec.width = lo + gen::pick(wpick, span);
